@@ -10,6 +10,12 @@ Address shapes used throughout:
 """
 
 
+def defined_control_bits(ctl):
+    """the control octet with the reserved bits 6 and 4 cleared (arithmetic only: a
+    multi-bit mask on a symbolic int makes CrossHair enumerate its values)"""
+    return ctl - ((ctl // 64) % 2) * 64 - ((ctl // 16) % 2) * 16
+
+
 def u16(n):
     """16-bit unsigned, most significant octet first"""
     return [n // 256, n % 256]
@@ -102,7 +108,7 @@ def npci_parse(data):
     p.er = (ctl & 0x04) != 0
     p.prio = ctl & 0x03
     odd = None
-    if (ctl & 0x50) != 0:
+    if (ctl // 64) % 2 != 0 or (ctl // 16) % 2 != 0:
         odd = 'reserved-control-bit'
     pos = 2
     if (ctl & 0x20) != 0:
